@@ -93,6 +93,9 @@ var c05Reverse = probe.Define("C05", "reverse",
 
 func TestC05(t *testing.T) {
 	c := probe.NewCtx(t, "C05")
+	runIDSweep(c, func(m model.Message) bool {
+		return c05Forward.Eval(c, c03In{Msg: m}) && c05Reverse.Eval(c, c05RevIn{Msg: m})
+	})
 	c05Forward.Run(c, t, c.N(3000, 30000))
 	c05Reverse.Run(c, t, c.N(3000, 30000))
 }
